@@ -160,6 +160,11 @@ pub fn run(cfg: Cfg, out: &mut Out) {
                 r.filter(&format!("any({f}{a}{b})"), "matrix.index2.quant");
                 r.filter(&format!("all({f}{a}{b}[0])"), "matrix.index3.quant");
                 r.filter(&format!("any({f}{a}{b}[*])"), "matrix.index3.quant");
+                // the same paths as a parenthesised / negated operand: typed by the comparison
+                // lexer (bare operand of a container-of-Bool type), not by the argument lexer
+                r.filter(&format!("any(({f}{a}{b}))"), "matrix.index2.quant.paren");
+                r.filter(&format!("all((not {f}{a}{b}))"), "matrix.index2.quant.paren");
+                r.filter(&format!("any(({f}{a}{b}[0]) or ab)"), "matrix.index3.quant.paren");
             }
         }
     }
